@@ -261,7 +261,28 @@ def one_shot_iterators(chk: Check, f):
     return bad
 
 
+def orphans_resolve_links(chk: Check):
+    """A job folder can be reached through a link (repair of deprecated identifiers): `referenced` means that some index entry *resolves* to
+    the folder, not that the two relative names are equal; a link among the stored jobs is unlinked, never handed to rmtree"""
+    tree = chk.tree
+    f = tree.func("cli", "orphans")
+    g = CFG(f.node)
+    rd = ReachingDefs(g)
+    loc = chk.loc(f.module, f.node)
+    rms = [(n, c) for n, c in g.call_nodes(lambda c: tail(c) == "rmtree")]
+    for n, c in rms:
+        gs = [rd.canon(t.ast, t) for t, pol in g.guards(n) if t.kind == "test"]
+        ok = any(".resolve()" in t_ and " in " in t_ for t_ in gs)
+        chk.require(ok, chk.fkey(f, "referenced through a link"), f"`{src(c)}` is decided by relative names only ({gs[:2]}): the folder behind a repair link that an index references "
+                    "is reported as an orphan and deleted", chk.loc(f.module, c))
+        gl = [(src(t.ast), pol) for t, pol in g.guards(n) if t.kind == "test" and "is_symlink" in src(t.ast)]
+        chk.require(any(pol is False for _, pol in gl), chk.fkey(f, "links are unlinked"), "rmtree can be called on a symbolic link (it raises): links among the stored jobs must be unlinked", chk.loc(f.module, c))
+    adds = [c for c in fn_calls(f.node) if tail(c) == "add" and c.args and ".resolve()" in src(c.args[0])]
+    chk.require(bool(adds), chk.fkey(f, "collects resolved index entries"), "orphans does not record the folders the index entries resolve to", loc)
+
+
 def r5_orphans_index(chk: Check):
+    orphans_resolve_links(chk)
     tree = chk.tree
     f = tree.func("cli", "orphans")
     loc = chk.loc(f.module, f.node)
@@ -359,7 +380,8 @@ def r5_orphans_index(chk: Check):
             tnode = member[0][0]
             want_key = rd.canon(ast.parse(listing[0], mode="eval").body, tnode)
             okd = rd.canon(tnode.ast.left, tnode) == want_key or src(tnode.ast.left) == listing[0]
-        rest = sorted((src(t.ast), pol) for t, pol in guards if (t, pol) not in member)
+        # (`not a link` and `no index entry resolves to it` are the two refinements of orphans_resolve_links)
+        rest = sorted((src(t.ast), pol) for t, pol in guards if (t, pol) not in member and not ("is_symlink()" in src(t.ast) and pol is False) and not (".resolve() in " in src(t.ast) and pol is False))
         ok = okd and rest == sorted([("clean", True)] + (listing[2] if listing else []))
         chk.require(ok, chk.fkey(f, "delete iff clean and unreferenced"), f"orphans deletes under {gs}; expected exactly: --clean and the job is referenced by no index", chk.loc(f.module, c))
         chk.require(listing is not None and (src(c.args[0]) == listing[1] or rd.canon(c.args[0], n) == listing[1]), chk.fkey(f, "deletes the orphan itself"), "the deleted path must be the orphan job directory under jobs/", chk.loc(f.module, c))
